@@ -97,7 +97,8 @@ def const_tensor(shape, val):
 
 def tables(p):
     grids = [mkgrid(s) for s in p["grids"]]
-    out = {"dshape": {}, "geq": [[bool(a == b) for b in grids] for a in grids],
+    # geq: the early-return test of SpatialTransform.grid_ (Grid.__eq__ and equal align_corners)
+    out = {"dshape": {}, "geq": [[bool(a == b and a.align_corners() == b.align_corners()) for b in grids] for a in grids],
            "same_domain": [[bool(a.same_domain_as(b)) for b in grids] for a in grids]}
     for k in KINDS:
         out["dshape"][k] = [data_shape(k, g) for g in grids]
@@ -200,6 +201,15 @@ class World:
         if k == "cond_":
             t.condition_((int(op["c"][0]), int(op["c"][1])))
             return {}
+        if k == "cond":
+            # functional form: conditioned shallow copy, positional or keyword argument
+            c = (int(op["c"][0]), int(op["c"][1]))
+            new = t.condition(c=c) if op.get("kw") else t.condition(c)
+            if not isinstance(new, S.SpatialTransform):
+                raise TypeError("condition() with arguments did not return a transform")
+            objs.append(new)
+            self.kinds.append(kind)
+            return {}
         if k == "reset":
             t.reset_parameters()
             return {}
@@ -281,8 +291,11 @@ def grid_id(grids, g):
     return 0
 
 
+FOCUS = {"mode": None}
+
+
 def gen_new(rng, grids, specs):
-    kind = rng.choice(list(KINDS))
+    kind = rng.choice(list(KINDS) if FOCUS["mode"] != "inverse" else ["svf", "svffd", "lin", "lin"])
     pk = rng.choice(["param", "buf", "tensor", "ptensor", "fun", "mod", "none", "tensor", "fun"])
     cands = [g for g in range(len(grids)) if kind == "lin" or kind in ("disp", "svf") or specs[g]["align"]]
     if rng.random() < 0.06:
@@ -321,9 +334,13 @@ def gen_op(rng, w, specs):
     t = w.objs[o]
     kind = w.kinds[o]
     cur = grid_id(grids, t.grid())
-    choices = ["call"] * 5 + ["disp"] * 3 + ["tensor"] * 3 + ["update"] * 2 + ["clear", "copy", "cond_", "grid_", "grid_", "inverse", "inverse"]
+    choices = ["call"] * 5 + ["disp"] * 3 + ["tensor"] * 3 + ["update"] * 2 + ["clear", "copy", "cond_", "cond", "grid_", "grid_", "inverse", "inverse"]
     if kind != "seq":
         choices += ["data_"] * 3 + ["edit"] * 3 + ["reset", "link_", "unlink_", "cond_"]
+    if FOCUS["mode"] == "inverse":
+        choices = ["call"] * 6 + ["inverse"] * 5 + ["tensor", "disp", "update", "copy", "cond_", "clear"]
+        if kind != "seq":
+            choices += ["edit"] * 5 + ["data_"] * 2 + ["reset", "link_", "unlink_"]
     k = rng.choice(choices)
     op = {"op": k, "o": o if rng.random() < 0.985 else len(w.objs) + 1}
     if k == "data_":
@@ -337,8 +354,10 @@ def gen_op(rng, w, specs):
             op["grid"] = rng.choice(FFD_NEXT.get(cur, [0, 1]))
         else:
             op["grid"] = rng.randrange(len(grids))
-    elif k == "cond_":
+    elif k in ("cond_", "cond"):
         op["c"] = [rng.randint(1, 6), cur if rng.random() < 0.9 else rng.randrange(len(grids))]
+        if k == "cond":
+            op["kw"] = rng.random() < 0.5
     elif k == "inverse":
         op["link"] = rng.random() < 0.5
         op["upd"] = rng.random() < 0.5
@@ -351,6 +370,7 @@ def gen_op(rng, w, specs):
 
 
 def generate(p):
+    FOCUS["mode"] = p.get("focus")
     rng = random.Random(p["seed"])
     specs = p["grids"]
     grids = [mkgrid(s) for s in specs]
@@ -739,7 +759,7 @@ def replace_checks(rng, grids, specs, dom, n, report, counts):
                     t.condition_(c)
                 else:
                     cands = [g for g in admissible_grids(kind, t, grids, specs, dom)
-                             if not (grids[g] == t.grid())]       # align-only changes are reported by the history oracle
+                             if not (grids[g] == t.grid() and grids[g].align_corners() == t.grid().align_corners())]
                     if not cands:
                         hist.pop()
                         continue
